@@ -205,3 +205,78 @@ def key_of(*parts):
     for p in parts:
         h.update(p if isinstance(p, bytes) else str(p).encode()); h.update(b"|")
     return h.hexdigest()[:20]
+
+# ------------------------------------------------------------------ LZ4MID (HC levels 1-2) model vs code
+def midstate_lib():
+    """shared object with harness/c/hcstate.c (field access to LZ4_streamHC_t for the LZ4MID correspondence)"""
+    from vlib import build_lib
+    return build_lib("midstate", wrappers=["hcstate.c"])
+
+def parse_mid(a):
+    t = a.split()
+    if len(t) < 9 or not t[0].lstrip("-").isdigit():
+        raise RuntimeError("mid oracle: " + a[:300])
+    d = {"ret": int(t[0]), "consumed": int(t[1]), "len": int(t[2]), "md5": t[3]}
+    for kv in t[4:]:
+        if "=" in kv:
+            k, v = kv.split("=", 1); d[k] = v
+    return d
+
+def run_mid_session(st, calls, res, info, level=2):
+    """calls: list of ("fr", src, cap) = LZ4_compress_HC_extStateHC_fastReset, ("ds", src, target) = LZ4_compress_HC_destSize,
+    executed on ONE LZ4_streamHC_t and on the extracted Model.HcMidApi (oracle `mid`, session context).
+    After every call: return value, consumed, output bytes, both hash tables, end index and dirty flag must agree.
+    returns the list of (kind, src, ret, consumed, out)."""
+    import ctypes, hashlib
+    from ctypes import c_int, byref, c_void_p, c_uint, c_ulonglong
+    lib = st["midlib"]; raw = st["midraw"]; orc = st["mid"]
+    raw.v_hc_mid_tables.restype = c_int; raw.v_hc_mid_tables.argtypes = [c_void_p, c_void_p]
+    raw.v_hc_end_index.restype = c_ulonglong; raw.v_hc_end_index.argtypes = [c_void_p]
+    raw.v_hc_dirty.restype = c_int; raw.v_hc_dirty.argtypes = [c_void_p]
+    stbuf = Buf(lib.sizeofStateHC(), data=bytes(lib.sizeofStateHC()))
+    lib.initStreamHC(stbuf.p, stbuf.n)
+    orc.ask("midinit")
+    tabs = Buf(4 * 32768)
+    outs = []
+    for ci, (kind, src, cap) in enumerate(calls):
+        n = len(src)
+        srcb = Buf(n, data=src)
+        dstb = Buf(max(cap, 0), fill=0xC3)
+        sz = c_int(n)
+        if kind == "fr":
+            r = lib.compress_HC_extStateHC_fastReset(stbuf.p, srcb.p, dstb.p, n, cap, level)
+            m = parse_mid(orc.ask("midfr", hx(src), str(cap)))
+            consumed = n
+        else:
+            r = lib.compress_HC_destSize(stbuf.p, srcb.p, dstb.p, byref(sz), cap, level)
+            m = parse_mid(orc.ask("midds", hx(src), str(cap)))
+            consumed = sz.value
+        out = dstb.bytes(r) if 0 < r <= cap else b""
+        res["evals"] += 1
+        res["stats"]["mid_" + kind] += 1
+        half = raw.v_hc_mid_tables(stbuf.p, tabs.p)
+        t = tabs.bytes()
+        h4 = hashlib.md5(t[:4 * half]).hexdigest(); h8 = hashlib.md5(t[4 * half:8 * half]).hexdigest()
+        endi = raw.v_hc_end_index(stbuf.p); dirty = raw.v_hc_dirty(stbuf.p)
+        bad = None
+        if m["ret"] != r:
+            bad = "return value: model %d, code %d" % (m["ret"], r)
+        elif r > 0 and (m["md5"] != md5(out) or (kind == "ds" and m["consumed"] != consumed)):
+            bad = "output or consumed differ (code consumed=%d model=%d, code len %d model len %d)" % (consumed, m["consumed"], len(out), m["len"])
+        elif m["h4"] != h4 or m["h8"] != h8:
+            bad = "hash tables differ after the call (%s)" % ("hash4" if m["h4"] != h4 else "hash8")
+        elif int(m["end"]) != endi or int(m["dirty"]) != (1 if dirty else 0):
+            bad = "context differs: end index model %s code %d, dirty model %s code %d" % (m["end"], endi, m["dirty"], dirty)
+        elif r > 0 and int(m["hw"]) > cap and (kind == "ds" or cap < bound(n)):
+            res["fails"].append({"status": "prop_fail", "what": "LZ4MID model writes up to %s > capacity %d" % (m["hw"], cap),
+                                 "detail": dict(info, call=ci, kind=kind, n=n, cap=cap)})
+        if bad:
+            res["fails"].append({"status": "corr_fail", "what": "LZ4MID model/code disagree (call %d, %s): %s" % (ci, kind, bad),
+                                 "detail": dict(info, call=ci, kind=kind, n=n, cap=cap, level=level,
+                                                calls=[(k, s.hex() if len(s) <= 300 else "len=%d md5=%s" % (len(s), md5(s)), c) for (k, s, c) in calls[:ci + 1]])})
+            srcb.free(); dstb.free()
+            break
+        outs.append((kind, src, r, consumed, out))
+        srcb.free(); dstb.free()
+    stbuf.free(); tabs.free()
+    return outs
